@@ -42,3 +42,7 @@ claim("C09",
       "Symbolic model checking on the whole open domain: parity identities, [0,1] bounds, call <= spot, put <= strike, American binary >= European binary and == 1 once the barrier is reached, lookback >= European while max < strike, and the signs of the symbolic partial derivatives of the executed price terms (dP/dS > 0, P_SS >= 0, vega >= 0, dP/dt >= 0, binary call increasing in spot), from which monotonicity/convexity between any two points follow by the mean-value theorem.",
       "Mean-value theorem trusted; inequalities needing analytic facts about Phi beyond the axiom list (call >= intrinsic, American binary <= 1, lookback >= locked-in payoff) are not decided and not claimed.",
       "DESIGN.md §3 C09", SMT)
+claim("C19",
+      "Bounded symbolic model checking of the real bisection loop: the function under inversion is an arbitrary strictly monotone function per tensor element (fresh value per evaluation, constrained only by monotonicity against earlier evaluations and the symbolic root); the loop is unrolled by the path explorer (trip count implied by the concrete bracket/precision) and z3 proves |result - root| <= precision and result inside the bracket for increasing and decreasing functions, 0-dim to (2,2) tensors, scalar and tensor bounds, RuntimeError when max_iter is too small (and a bounded number of evaluations), ValueError for lower >= upper; European and lookback implied volatility are run with the real module price on the real bracket [0.001,1] at precision 2^-3..2^-5, with a call-site contract check that the requested precision and bracket reach bisect.",
+      "bracket/precision <= 2^10; vega > 0 is an assumed lemma (C08/C09 + mean-value theorem) for the implied-volatility cases; precision 1e-6 on the real bracket is outside the claim; binaries not claimed.",
+      "DESIGN.md §3 C19", SMT)
